@@ -380,6 +380,98 @@ def _lda(ctx: RuleCtx):
     return lda, solve, update
 
 
+def _virtual_calls(fn: ast.FunctionDef, call: ast.Call) -> List[ast.Call]:
+    """The call with its plain-name arguments replaced by what they stand for, once per way of reaching it: names bound
+    by parallel (tuple) assignments in the two branches of one `if` give one virtual call per branch; a local closure
+    `def f(b, x): return <expr>` passed by name becomes the equivalent lambda.  This makes
+
+        if adjoint: mat, xs, bs, mode = self.A.conj().T, self.xadj, self.badj, 'H'
+        else:       mat, xs, bs, mode = self.A, self.x, self.b, 'N'
+        return self._helper(mat, rhs, xs, bs, solve_fn)
+
+    the same program as two explicit calls."""
+    import copy as _c
+    names = {a.id for a in list(call.args) + [k.value for k in call.keywords] if isinstance(a, ast.Name)}
+    if not names:
+        return [call]
+    closures: Dict[str, ast.Lambda] = {}
+    for st in ast.walk(fn):
+        if isinstance(st, ast.FunctionDef) and st is not fn and st.name in names and len(st.body) >= 1 and isinstance(st.body[-1], ast.Return) \
+                and st.body[-1].value is not None and all(isinstance(b, (ast.Expr, ast.Return)) for b in st.body):
+            closures[st.name] = ast.copy_location(ast.Lambda(args=st.args, body=st.body[-1].value), st)
+    # definitions of the remaining names, with the if-branch they sit in
+    defs: Dict[str, List[Tuple[ast.AST, ast.AST]]] = {}
+    for st in ast.walk(fn):
+        if isinstance(st, ast.Assign) and len(st.targets) == 1:
+            t, v = st.targets[0], st.value
+            pairs = list(zip(t.elts, v.elts)) if isinstance(t, ast.Tuple) and isinstance(v, ast.Tuple) and len(t.elts) == len(v.elts) else [(t, v)]
+            for a, b in pairs:
+                if isinstance(a, ast.Name):
+                    defs.setdefault(a.id, []).append((st, b))
+    free = set()
+    for lam in closures.values():
+        free |= {x.id for x in ast.walk(lam.body) if isinstance(x, ast.Name)} - {a.arg for a in lam.args.args}
+    wanted = (names | free) - set(closures)
+    multi = {nm for nm in wanted if len(defs.get(nm, [])) >= 2}
+    cases: List[Dict[str, ast.AST]] = [{}]
+    if multi:
+        # every multiply-defined name must be defined once in each branch of one and the same `if`
+        def branch_of(st):
+            p_, ch = getattr(st, "_parent", None), st
+            while p_ is not None and p_ is not fn:
+                if isinstance(p_, ast.If):
+                    return (id(p_), "body" if any(ch is b for b in p_.body) else "orelse")
+                p_, ch = getattr(p_, "_parent", None), p_
+            return None
+        by_branch: Dict[Tuple[int, str], Dict[str, ast.AST]] = {}
+        for nm in multi:
+            for st, v in defs[nm]:
+                b = branch_of(st)
+                if b is None:
+                    return [call]
+                by_branch.setdefault(b, {})[nm] = v
+        if len({k[0] for k in by_branch}) != 1 or any(set(env) != multi for env in by_branch.values()):
+            return [call]
+        cases = [dict(env) for _, env in sorted(by_branch.items(), key=lambda kv: kv[0][1])]
+    for env in cases:
+        for nm in wanted - multi:
+            if len(defs.get(nm, [])) == 1 and not isinstance(defs[nm][0][1], ast.Name):
+                v = defs[nm][0][1]
+                # only pure attribute chains / constants / transposes are substituted
+                if all(isinstance(x, (ast.Attribute, ast.Name, ast.Constant, ast.Call, ast.Load)) for x in ast.walk(v)) and \
+                        not any(isinstance(x, ast.Call) and not (isinstance(x.func, ast.Attribute) and x.func.attr in ("conj", "conjugate", "transpose")) for x in ast.walk(v)):
+                    env[nm] = v
+
+    class Sub(ast.NodeTransformer):
+        def __init__(self, env):
+            self.env = env
+
+        def visit_Name(self, node):
+            if isinstance(node.ctx, ast.Load) and node.id in self.env:
+                return ast.copy_location(_c.deepcopy(self.env[node.id]), node)
+            return node
+    out = []
+    for env in cases:
+        full = dict(env)
+        for nm, lam in closures.items():
+            full[nm] = Sub(env).visit(_c.deepcopy(lam))
+        if not full:
+            return [call]
+        vc = _c.deepcopy(call)
+        vc.args = [Sub(full).visit(a) if isinstance(a, ast.Name) else a for a in vc.args]
+        for k in vc.keywords:
+            if isinstance(k.value, ast.Name):
+                k.value = Sub(full).visit(k.value)
+        ast.copy_location(vc, call)
+        ast.fix_missing_locations(vc)
+        for x in ast.walk(vc):
+            for ch in ast.iter_child_nodes(x):
+                ch._parent = x          # type: ignore[attr-defined]
+        vc._parent = getattr(call, "_parent", None)      # type: ignore[attr-defined]
+        out.append(vc)
+    return out
+
+
 def _db_calls(ctx: RuleCtx):
     """Calls inside LDAWrapper.solve to the helper that appends to list parameters: returns (helper, [(call, {param:
     attribute bound})])."""
@@ -388,10 +480,10 @@ def _db_calls(ctx: RuleCtx):
     selfn = m.self_name(solve)
     out = []
     helper = None
-    for n in ast.walk(solve.node):
-        if not isinstance(n, ast.Call):
+    for n0 in ast.walk(solve.node):
+        if not isinstance(n0, ast.Call):
             continue
-        callees = [g for g in m.resolve_call(solve, n, concrete=lda) if g.cls is not None and g.name != "solve"]
+        callees = [g for g in m.resolve_call(solve, n0, concrete=lda) if g.cls is not None and g.name != "solve"]
         for g in callees:
             summ = ctx.flow.summary(g, lda)
             appended = {p for p, d in summ.mutates.items() if ".append()" in d or ".extend()" in d}
@@ -399,14 +491,15 @@ def _db_calls(ctx: RuleCtx):
                 continue
             helper = g
             params = g.pos_params()
-            bound = {}
-            for i, a in enumerate(n.args):
-                if i < len(params):
-                    bound[params[i]] = a
-            for k in n.keywords:
-                if k.arg:
-                    bound[k.arg] = k.value
-            out.append((n, g, bound, appended))
+            for n in _virtual_calls(solve.node, n0):
+                bound = {}
+                for i, a in enumerate(n.args):
+                    if i < len(params):
+                        bound[params[i]] = a
+                for k in n.keywords:
+                    if k.arg:
+                        bound[k.arg] = k.value
+                out.append((n, g, bound, appended))
     if not out:
         raise AnalysisError("LDAWrapper.solve: the database helper (a self-method appending to list parameters) not found")
     return lda, solve, update, out
